@@ -24,20 +24,61 @@ import GunYu.Proofs.TargetSeq
 import GunYu.Proofs.Crash
 import GunYu.Proofs.TxnShape
 import GunYu.Proofs.ResumeDb
+import GunYu.Proofs.Parser
 
 namespace GunYu.Props.C02
 open GunYu GunYu.Sender GunYu.Target
 
-/-- item offsets strictly increase along the schedule (every item is the end of
-    a distinct source command), starting above `last` -/
+/-- item offsets increase along the schedule (every item is the end of a
+    distinct source command), starting above `last`; only an `EXEC` item -- which
+    is never queued -- may repeat the offset of the item before it (the parser
+    gives the `EXEC` that closes a transaction inside a filtered database the
+    offset of the last forwarded item, `Props.C01.parser_keeps_order`) -/
 def SMono : Int → List Ev → Prop
   | _, [] => True
-  | last, .item it :: rest => last < it.offset ∧ SMono it.offset rest
+  | last, .item it :: rest =>
+      last ≤ it.offset ∧ (it.cmd ≠ bExec → last < it.offset) ∧ SMono it.offset rest
   | last, _ :: rest => SMono last rest
 
 theorem smono_step (s : SState) (ev : Ev) (rest : List Ev) (h : SMono s.lastOffset (ev :: rest)) :
-    (∀ it, ev = .item it → s.lastOffset < it.offset) ∧ SMono (newLast s ev) rest := by
-  cases ev <;> simp [SMono, newLast] at h ⊢ <;> first | exact h | exact ⟨h.1, h.2⟩
+    (∀ it, ev = .item it → s.lastOffset ≤ it.offset ∧ (it.cmd ≠ bExec → s.lastOffset < it.offset)) ∧
+    SMono (newLast s ev) rest := by
+  cases ev <;> simp [SMono, newLast] at h ⊢ <;> first | exact h | exact ⟨⟨h.1, h.2.1⟩, h.2.2⟩
+
+theorem smono_of_itemsMono (last : Int) (evs : List Ev) (h : ItemsMono last (itemsOf evs)) :
+    SMono last evs := by
+  induction evs generalizing last with
+  | nil => trivial
+  | cons ev rest ih =>
+    cases ev with
+    | item it => exact ⟨h.1, h.2.1, ih _ h.2.2⟩
+    | batchTick => exact ih _ h
+    | keepaliveTick => exact ih _ h
+    | cpTick => exact ih _ h
+    | done => exact ih _ h
+
+theorem smono_weaken {a b : Int} (hab : a ≤ b) (evs : List Ev) (h : SMono b evs) : SMono a evs := by
+  induction evs with
+  | nil => trivial
+  | cons ev rest ih =>
+    cases ev with
+    | item it => exact ⟨by have := h.1; omega, fun hne => by have := h.2.1 hne; omega, h.2.2⟩
+    | batchTick => exact ih h
+    | keepaliveTick => exact ih h
+    | cpTick => exact ih h
+    | done => exact ih h
+
+/-- **The hypothesis of every theorem below is what the real parser delivers**:
+    for ANY filter / mapping configuration, any source stream whose commands end
+    at strictly increasing offsets above the start offset, and any schedule whose
+    items are the parser's output for it, `SMono` holds. -/
+theorem parser_feeds_smono (pc : PCfg) (raws : List Raw) (start : Int) (evs : List Ev)
+    (hitems : itemsOf evs = parseAll pc { lastSent := start } raws)
+    (hraw : (raws.map (·.off)).Pairwise (· < ·)) (hlo : ∀ r ∈ raws, start < r.off)
+    (hstart : 0 ≤ start) :
+    SMono initS.lastOffset evs :=
+  smono_weaken (by simp only [initS]; omega) evs (smono_of_itemsMono start evs (by
+    rw [hitems]; exact parseAll_itemsMono pc raws { lastSent := start } hraw hlo))
 
 /-- the whole run keeps the wire ordered, and bounded by what is still pending -/
 theorem run_ok (c : SCfg) (s : SState) (evs : List Ev) (hq : QOk s.queue s.lastOffset)
